@@ -80,12 +80,20 @@ def run(ctx):
     # 3. GEN replay: observed slice length / number of writes against the Spec-computed ones
     for item in out["singles"]:
         traces.append(item["trace"])
-        for ob in item["obs"]:
+        done = {e["r"]: e.get("res") for e in item["trace"]["events"] if e.get("ev") == "Done"}
+        for j, ob in enumerate(item["obs"]):
             c = ob["case"]
             f = files[c["f"]]
             ctx.count("single/%d/%d/%d" % (c["f"], c["off"], c["size"]) if 0 < c["len"] < f["size"] else None)
-            for field, want, got in (("slice_length", c["len"], ob["nbytes"]), ("writes", c["pieces"], ob["nwrites"]),
-                                     ("completed", True, ob["finished"])):
+            lt = item["trace"]["consts"].get("guess") == "lt"
+            if not ob["finished"] or done.get("r%d" % j) != "ok":
+                # the read ended in an error or never completed (wrong data is judged below, never excused)
+                ctx.report("case:read:failed%s" % (":guess_smaller_than_real" if lt else ""),
+                           "read(offset=%d, size=%s) of a %d-byte file (k=%d, maxseg=%d) did not complete (%d bytes delivered), the Spec says %d bytes" % (
+                               c["off"], "None" if c["size"] < 0 else c["size"], f["size"], f["k"], f["maxseg"], ob["nbytes"], c["len"]),
+                           replay={"kind": "gen-case", "file": f, "case": c, "observed": ob, "trace": item["trace"]})
+                continue
+            for field, want, got in (("slice_length", c["len"], ob["nbytes"]), ("writes", c["pieces"], ob["nwrites"])):
                 if want != got:
                     ctx.report("case:read:%s" % field,
                                "read(offset=%d, size=%s) of a %d-byte file (k=%d, maxseg=%d): %s is %r, the Spec says %r" % (
